@@ -363,6 +363,7 @@ class TransferManager(BaseManager):
         except Exception:
             logger.exception("error aborting transfer before removal : %s", transfer)
         finally:
+            await asyncio.gather(*transfer.cancel_tasks(), return_exceptions=True)
             self._transfers.remove(transfer)
             await self._event_bus.emit(TransferRemovedEvent(transfer))
 
